@@ -13,20 +13,23 @@ use std::time::Duration;
 
 pub struct C10;
 
-pub const CONFIGS: &[&str] = &["builtin", "symbolic", "words"];
+pub const CONFIGS: &[&str] = &["builtin", "symbolic", "words", "postfix-words"];
 
 /// extra operators registered per configuration: (name, kind)
 pub fn config_ops(cfg: &str) -> Vec<(&'static str, &'static str)> {
     match cfg {
-        "symbolic" => vec![("+++", "prefix"), ("**", "infix"), ("<=>", "infix"), ("=~", "infix"), ("!!", "postfix"), ("?:", "infix"), (":=", "infix"), ("??", "postfix"), ("?.", "infix"), ("+.", "postfix"), ("\u{4e0d}\u{5305}\u{542b}\u{4e8e}", "infix")],
+        "symbolic" => vec![("+++", "prefix"), ("**", "infix"), ("<=>", "infix"), ("=~", "infix"), ("!!", "postfix"), ("?:", "infix"), (":=", "infix"), ("??", "postfix"), ("?.", "infix"), ("+.", "postfix"), ("^2", "postfix"), ("/i", "infix"), ("\u{4e0d}\u{5305}\u{542b}\u{4e8e}", "infix")],
         "words" => vec![("hi", "infix"), ("is_a", "infix"), ("~=", "infix"), ("is-not", "infix"), ("neg", "prefix"), ("§", "postfix"), ("startsWithAnyCaseInsensitive_v2", "infix"), ("gr\u{f6}\u{df}er", "infix")],
+        // word operators that exist as postfix operators only (the longest operator of all is one of them)
+        "postfix-words" => vec![("isPositiveNumber", "postfix"), ("pct", "postfix")],
         _ => vec![],
     }
 }
 
 pub fn extra_fragments(cfg: &str) -> Vec<&'static str> {
     match cfg {
-        "symbolic" => vec!["~", "\u{4e0d}\u{5305}\u{542b}\u{4e8e}", "\u{4e0d}"],
+        "symbolic" => vec!["~", "i", "2", "\u{4e0d}\u{5305}\u{542b}\u{4e8e}", "\u{4e0d}"],
+        "postfix-words" => vec!["isPositiveNumber", "isPositive", "pct"],
         "words" => vec!["hi", "is_a", "~", "is", "neg", "§", "startsWithAnyCaseInsensitive_v2", "startsWithAnyCaseInsensitive_v", "gr\u{f6}\u{df}er", "gr\u{f6}"],
         _ => vec![],
     }
@@ -78,12 +81,12 @@ fn sweeps(tier: Tier) -> Vec<(&'static str, Strings)> {
     // the same registered sets, but every string of <= 2 fragments is tokenised BEFORE the
     // operators are registered (a lexeme seen as a name first must be an operator afterwards)
     for cfg in &CONFIGS[1..] {
-        v.push((if *cfg == "symbolic" { "symbolic-primed" } else { "words-primed" }, Strings::new(&alphabet(cfg, false), 3)));
+        v.push((match *cfg { "symbolic" => "symbolic-primed", "words" => "words-primed", _ => "postfix-words-primed" }, Strings::new(&alphabet(cfg, false), 3)));
     }
     // ... and the same again with the registrations made by another (joined) thread: what this
     // thread remembered about a lexeme must not survive a registration made elsewhere
     for cfg in &CONFIGS[1..] {
-        v.push((if *cfg == "symbolic" { "symbolic-primed-xthread" } else { "words-primed-xthread" }, Strings::new(&alphabet(cfg, false), 3)));
+        v.push((match *cfg { "symbolic" => "symbolic-primed-xthread", "words" => "words-primed-xthread", _ => "postfix-words-primed-xthread" }, Strings::new(&alphabet(cfg, false), 3)));
     }
     // character-class completeness (see FRAGMENTS_EXTRA), built-ins and the word configuration
     for cfg in ["builtin", "words"] {
@@ -290,7 +293,7 @@ impl Prop for C10 {
             len: long_token_inputs(tier.pick(14, 17)).len() as u64,
             chunk: 200,
             timeout: Duration::from_secs(600),
-            what: "one long token per input (38 shapes x every length 1..70 and 2^k-1, 2^k, 2^k+1): spans, texts and kinds against the reference lexer".into(),
+            what: "one long token per input (39 shapes x every length 1..70 and 2^k-1, 2^k, 2^k+1): spans, texts and kinds against the reference lexer".into(),
         });
         Plan {
             stages,
